@@ -195,6 +195,44 @@ def enumerated():
                     yield base + ['v:c' if atoms is atomsP else 'rv:c', 'mul', 'eq0']
 
 
+def monomial_family(rng, quick):
+    """(1) products and quotients of monomial fractions over three or more variables in every relative order of the
+    names (the common-factor cancellation of RationalPolynomial.__mul__), (2) integer powers of single-term
+    polynomials against the same function obtained by repeated multiplication, followed by the zero tests"""
+    vs = VARS[:5]
+    monos = []
+    for r in (1, 2, 3):
+        for c in itertools.combinations_with_replacement(vs, r):
+            monos.append(list(c))
+    def mono(m, pre, coeff=None):
+        toks = [f'{pre}v:{m[0]}'] + [t for v in m[1:] for t in (f'{pre}v:{v}', 'mul')]
+        if coeff is not None:
+            toks = [f'{pre}n:{coeff}'] + toks + ['mul']
+        return toks
+    pairs = [(a, b) for a in monos for b in monos]
+    if quick:
+        pairs = rng.sample(pairs, 350)
+    for a, b in pairs:
+        yield mono(a, 'r') + ['rn:1'] + mono(b, 'r') + ['div', 'mul']                     # a * (1/b)
+        if rng.random() < 0.5:
+            yield mono(a, 'r') + mono(b, 'r') + ['div'] + mono(rng.choice(monos), 'r') + ['mul']   # (a/b) * c
+        if rng.random() < 0.3:
+            yield mono(a, 'r') + ['rn:1'] + mono(b, 'r') + ['div', 'mul'] + mono(a, 'r') + mono(b, 'r') + ['div', 'eq']
+    multi = [m for m in monos if len(set(m)) >= 2]
+    for m in multi:
+        for pre in ('', 'r'):
+            for coeff in (None, 3, -2):
+                for n in (2, 3):
+                    power = mono(m, pre, coeff) + [f'pow:{n}']
+                    prod = mono(m, pre, coeff)
+                    for _ in range(n - 1):
+                        prod = prod + mono(m, pre, coeff) + ['mul']
+                    for tail in (['eq0'], ['bool'], [f'{pre}v:c', 'mul', 'eq0']):
+                        yield power + prod + ['sub'] + tail
+                    yield power + prod + ['eq']
+                    yield power + prod + ['add'] + prod + ['sub'] + prod + ['sub', 'eq0']
+
+
 def run(ctx):
     ctx.rule = ('postfix programs over the public constructors and operators of Polynomial / RationalPolynomial: an enumerated family '
                 '(all pairs of 12 resp. 10 atoms under each operator, followed by zero tests) and seeded random programs of length '
@@ -205,6 +243,7 @@ def run(ctx):
     progs = [p for p in enumerated()]
     for rational in (False, True):
         progs.extend(identities(rng, 150 if ctx.quick else 1500, rational))
+    progs.extend(monomial_family(rng, ctx.quick))
     n = 1500 if ctx.quick else 12000
     for i in range(n):
         progs.append(gen_program(rng, rational=(i % 2 == 1), length=rng.randint(3, 14 if ctx.quick else 24)))
